@@ -23,6 +23,27 @@ class Problem:
         self._done_cons = 0
         self.time = 0.0
         self.queries = 0
+        self.cross = None          # dict(left=n, results=[...]) when a second solver should re-decide a sample of the unsat queries
+
+    def _cross_check(self):
+        """diff with a second solver: the current assertion stack (assumptions + negated obligation) as SMT-LIB 2 through cvc5"""
+        import subprocess, tempfile, os
+        self.cross["left"] -= 1
+        txt = "(set-logic ALL)\n" + self.s.to_smt2()
+        fd, path = tempfile.mkstemp(suffix=".smt2")
+        os.write(fd, txt.encode())
+        os.close(fd)
+        try:
+            pr = subprocess.run(["cvc5", "--lang", "smt2", "--tlimit", "60000", path], stdout=subprocess.PIPE, stderr=subprocess.STDOUT, timeout=90)
+            out = pr.stdout.decode("utf-8", "replace").strip().splitlines()
+            verdict = out[0].strip() if out else "no output"
+            if any("(error" in l for l in out):
+                verdict = "error"
+        except Exception as e:
+            verdict = "failed: %r" % e
+        finally:
+            os.unlink(path)
+        self.cross["results"].append(verdict)
 
     def avar(self, i):
         if i not in self.avars:
@@ -74,6 +95,8 @@ class Problem:
         self.s.push()
         self.s.add(neg)
         r = self.s.check()
+        if r == z3.unsat and self.cross is not None and self.cross["left"] > 0:
+            self._cross_check()
         model = None
         if r == z3.sat:
             mdl = self.s.model()
